@@ -32,13 +32,39 @@ def _verify_one(idx):
         obs = V.verify(C, timeout=timeout)
     except Exception:
         return [dict(name=C.name + "#crash", contract=C.name, fn=C.fn, status="error", detail=traceback.format_exc()[-2000:], seconds=time.time() - t0)]
+    need_enum = _G["tier"] == "thorough" or any(ob["status"] in ("undecided", "out-of-reach", "vacuous") for ob in obs)
     for ob in obs:
         if ob["status"] == "refuted":
             tag = "%s/%s" % (pid, _safe(ob["name"]))
             res, path = replay(C, ob.get("model"), tag)
             ob["replay"] = dict(path=path, reproduced=res.get("reproduced"), why=res.get("why"), lifted=res.get("lifted"),
                                 error=res.get("error"), observed=res.get("observed"), expected=res.get("expected"), inputs=res.get("inputs"))
+            if res.get("reproduced") is False:
+                need_enum = True
+    if need_enum:
+        en = native_enum(C, 300 if _G["tier"] == "quick" else 3000, _G["seed"], pid)
+        obs.append(dict(name=C.name + "#native-enum", contract=C.name, fn=C.fn, props=list(C.props), status="bounded", enum=en, seconds=0.0))
     return obs
+
+
+def native_enum(C, n, seed, pid):
+    """function-level BOUNDED stand-in / CPython cross-check: n random admissible inputs through the real function"""
+    from pyvc.program import scratch_dir
+    req = dict(mode="enumerate", module=C.module, cls=C.clsname, case=C.case_name, n=n, seed=seed)
+    path = os.path.join(VERIF, "replays", pid, "enum_" + _safe(C.name) + ".json")
+    with open(path, "w") as f:
+        json.dump(req, f)
+    env = dict(os.environ, PYTHONPATH=scratch_dir() + os.pathsep + VERIF, PYTHONDONTWRITEBYTECODE="1")
+    try:
+        r = subprocess.run(["/venv/bin/python", os.path.join(VERIF, "pyvc", "replay_native.py"), path], capture_output=True, text=True, timeout=900, env=env)
+        res = json.loads(r.stdout.strip().splitlines()[-1])
+    except Exception as e:
+        res = dict(error="%s %s" % (type(e).__name__, e))
+    res["request"] = path
+    if res.get("failures"):
+        with open(path, "w") as f:
+            json.dump(dict(req, result=res), f, indent=1, default=str)
+    return res
 
 
 def _safe(s):
@@ -97,7 +123,7 @@ def main(argv):
         registry = load_contract_modules(prog, cfg["contracts"])
         reg = [C for C in registry if pid in C.props]
         V = Verifier(prog, registry, INTRINSICS, loop_handler)
-        _G.update(V=V, reg=reg, timeout=20 if tier == "quick" else 120, pid=pid)
+        _G.update(V=V, reg=reg, timeout=20 if tier == "quick" else 120, pid=pid, tier=tier, seed=seed)
         ctx = mp.get_context("fork")
         with cf.ProcessPoolExecutor(max_workers=min(16, max(1, len(reg))), mp_context=ctx) as ex:
             for obs in ex.map(_verify_one, range(len(reg))):
@@ -123,6 +149,24 @@ def main(argv):
 
     # ---------------- verdict per obligation
     crashed = [ob for ob in obligations if ob["status"] == "error"]
+    enum_by_contract = {}
+    for ob in obligations:
+        if ob["status"] == "bounded":
+            enum_by_contract[ob["contract"]] = ob["enum"]
+    enum_runs = [ob for ob in obligations if ob["status"] == "bounded"]
+    obligations = [ob for ob in obligations if ob["status"] != "bounded"]
+    for eo in enum_runs:
+        en = eo["enum"]
+        if en.get("error"):
+            crashed.append(dict(name=eo["name"], status="error", detail=en["error"]))
+        for fl in en.get("failures", []):
+            w = dict(name=eo["name"], detail=fl)
+            kf = known_match(known, pid, ob=w)
+            if kf:
+                known_hits.append((kf, w))
+            else:
+                violations.append((w, en.get("request"), ""))
+            break
     for ob in obligations:
         st = ob["status"]
         if st == "discharged":
@@ -180,7 +224,10 @@ def main(argv):
     # undecided deductive obligations: covered by the bounded stand-in if there is one and it ran
     unresolved = []
     for ob in undecided:
-        if bounded is not None and not ob.get("frame"):
+        en = enum_by_contract.get(ob.get("contract"))
+        if en is not None and not en.get("error") and en.get("admitted", 0) > 0:
+            ob["fallback"] = "BOUNDED: %d random admissible inputs through the real function satisfied the contract (%d distinct)" % (en.get("admitted", 0), en.get("distinct", 0))
+        elif bounded is not None and not ob.get("frame"):
             ob["fallback"] = "bounded stand-in of the property (see coverage.bounded)"
         else:
             unresolved.append(ob)
@@ -224,6 +271,7 @@ def main(argv):
         explanation=cfg.get("explanation", ""),
         extraction_drops=P.EXTRACTION_DROPS,
         known_findings_reported=sorted(seen_kf),
+        function_level_bounded=[dict(contract=e["contract"], admitted=e["enum"].get("admitted"), distinct=e["enum"].get("distinct"), failures=len(e["enum"].get("failures", []))) for e in enum_runs],
     )
     if bounded:
         coverage["bounded"] = {k: v for k, v in bounded.items() if k != "failures"}
